@@ -66,6 +66,7 @@ type Explorer struct {
 
 	names  []string
 	isBool map[string]bool
+	orig   map[string]string
 	domain map[string]int64
 	seen   map[string]*Term
 
@@ -95,6 +96,7 @@ func (e *Explorer) startPath(prefix []int32) {
 	e.res = &PathResult{}
 	e.names = nil
 	e.isBool = map[string]bool{}
+	e.orig = map[string]string{}
 	e.domain = map[string]int64{}
 	e.seen = map[string]*Term{}
 	e.defaultSched = schedPolicy{}
@@ -459,21 +461,50 @@ func nameOf(base Value, idx Value) string {
 	return n
 }
 
+// smtName makes a harness-chosen input name a legal, non-reserved SMT-LIB symbol.
+func smtName(name string) string {
+	var sb strings.Builder
+	sb.WriteString("i_")
+	for _, r := range name {
+		if (r >= 'a' && r <= 'z') || (r >= 'A' && r <= 'Z') || (r >= '0' && r <= '9') || r == '_' || r == '.' {
+			sb.WriteRune(r)
+		} else {
+			sb.WriteRune('_')
+		}
+	}
+	return sb.String()
+}
+
 func (e *Explorer) input(name string, isB bool) *Term {
 	if t, ok := e.seen[name]; ok {
 		return t
 	}
+	sn := smtName(name)
 	var t *Term
 	if isB {
-		t = tVarB(name)
+		t = tVarB(sn)
 	} else {
-		t = tVarI(name)
+		t = tVarI(sn)
 	}
 	e.seen[name] = t
-	e.names = append(e.names, name)
-	e.isBool[name] = isB
+	e.names = append(e.names, sn)
+	e.orig[sn] = name
+	e.isBool[sn] = isB
 	e.s.declare(t)
 	return t
+}
+
+// origNames maps a model keyed by SMT symbols back to the harness's input names.
+func (e *Explorer) origNames(m map[string]string) map[string]string {
+	out := make(map[string]string, len(m))
+	for k, v := range m {
+		if o, ok := e.orig[k]; ok {
+			out[o] = v
+		} else {
+			out[k] = v
+		}
+	}
+	return out
 }
 
 func (e *Explorer) model(extra *Term) map[string]string {
@@ -481,7 +512,7 @@ func (e *Explorer) model(extra *Term) map[string]string {
 	if r != "sat" {
 		return map[string]string{"_model": "unavailable: " + r}
 	}
-	return m
+	return e.origNames(m)
 }
 
 // pathModel returns a model of the path condition and fills in the digest
@@ -500,7 +531,7 @@ func (e *Explorer) pathModel() map[string]string {
 			e.res.Digest[d.idx] = d.label + "=" + vals[i]
 		}
 	}
-	return m
+	return e.origNames(m)
 }
 
 func (e *Explorer) schedList() []string {
@@ -573,7 +604,7 @@ func (e *Explorer) intrinsic(it *Interp, name string, args []Value) Value {
 		if _, ok := e.seen[n]; !ok {
 			t := e.input(n, false)
 			e.s.Assert(mk("and", true, mk("<=", true, tInt(0), t), mk("<", true, t, tInt(k))))
-			e.domain[n] = k
+			e.domain[smtName(n)] = k
 			t.iv, t.lo, t.hi = true, 0, k-1
 		}
 		return e.seen[n]
